@@ -2,6 +2,7 @@
 import os
 import posixpath
 import shutil
+import signal
 import stat
 import tarfile as std_tarfile
 import tempfile
@@ -13,28 +14,54 @@ OBLIGATIONS = [
     "Pkgcore.C25.write_links_to_first",
     "Pkgcore.C25.hardlink_chain",
     "Pkgcore.C25.tar_roundtrip_files",
+    "Pkgcore.C25.tar_roundtrip_inodes_iff",
     "Pkgcore.C25.empty_archive_empty",
     "Pkgcore.C25.convert_plain",
+    "Pkgcore.C25.convert_relocates_partial",
+    "Pkgcore.C25.convert_relocates_counterexample",
+    "Pkgcore.C25.convert_passes_counterexample",
+    "Pkgcore.C25.convert_cycle_counterexample",
+    "Pkgcore.C25.missing_dirs_exact",
+    "Pkgcore.C25.convert_adds_missing_dirs_partial",
+    "Pkgcore.C25.convert_order",
+    "Pkgcore.C25.relocatable_of_check",
+    "Pkgcore.C25.pathok_normalised",
 ]
 TRUSTED = [
     "the tar byte format and compression: contract 'the members handed to TarFile.addfile are the members read back, extractfile on a hard link "
     "yields the data of the member it names' — checked on every sampled archive by re-reading it with the stdlib tarfile and comparing with the "
     "model's member list, not proved",
-    "os.path.abspath/normpath/join, str.strip('/') re-expressed in Lean (normpath shared with C24) and compared on every sampled path",
-    "the relocation below symlinked directories, add_missing_directories and the final ordering of convert_archive are modelled executably and "
-    "compared on every sampled archive, but the theorems cover only sets without entries below a symlink (partial strength, see LEVEL_NOTE)",
+    "os.path.abspath/normpath/join/dirname, str.strip('/'), and the path tests of contentsSet.child_nodes/change_offset (isChild, moveLoc) "
+    "re-expressed in Lean (normpath shared with C24) and compared on every sampled path; the relocation theorems use them as primitives "
+    "(the specification resolveDir is stated with them, without the code's loops)",
+    "locations are normalised absolute paths ('/' + components without '/', '.', '..'): for those PathOK (the name mangling is the identity) and "
+    "LocNorm (child prefix = location + '/') are proved (pathok_normalised); that fs objects and archive_to_fsobj produce such locations is "
+    "pkgcore's/abspath's normalisation, compared on every sampled location",
+    "archives with a symlink entry recorded below another symlink entry are outside convert_relocates_partial (the code is order dependent "
+    "there: convert_relocates_counterexample, open finding); they are compared model-vs-code and against the live-merge oracle only",
     "mtimes and file contents are opaque tokens in the model; add_missing_directories stamps the current time (ignored in comparisons)",
 ]
 ASSUMPTIONS = [
     "locations are absolute and normalised (fs objects normalise them) and distinct; files that share (dev, inode) share mode/owner/mtime, as real hard links do",
-    "no symlink cycle among symlinked directories that have entries below them",
+    "relocation theorems: no symlink entry below another symlink entry; following at most as many symlinks as the archive holds settles every "
+    "location (no cycle); different entries resolve to different locations (Relocatable; evaluated by the Lean driver on every sampled set, "
+    "the theorem's conclusions are then checked on the real convert_archive result)",
 ]
 RULE = ("trees built on disk (nested directories, files with random contents, hard-link groups of 2-4 names, symlinks to files/directories/dangling/"
         "absolute, fifos, odd names) scanned with livefs.scan, then optionally altered: a directory entry replaced by a symlink to a sibling (entries "
-        "below a symlinked directory, 1-2 levels, relative and absolute targets), a directory entry dropped (missing directories), device nodes "
-        "added, owners/modes changed, files without dev/inode, one name of a hard-link group given a different mode; written with write_set "
-        "(bzip2, xz) or add_contents_to_tarfile into an uncompressed TarFile, re-read with generate_contents/convert_archive; plus empty sets and "
+        "below a symlinked directory, 1-2 levels, relative and absolute targets), chains of 2-3 symlinked directories whose names sort in any order "
+        "(current -> stable -> v2; targets spelled name, ./name, absolute, ../parent/name), a symlinked directory inside the target of a symlinked "
+        "directory (recorded at its real place, or below the outer symlink), relative targets climbing with '..' (also beyond the root), a symlink to "
+        "the parent directory with entries recorded once or twice through it, two directories replaced by symlinks to each other (cycle), a directory "
+        "entry dropped (missing directories), device nodes added, owners/modes changed, files without dev/inode, one name of a hard-link group given "
+        "a different mode; written with write_set (bzip2, xz) or add_contents_to_tarfile into an uncompressed TarFile, re-read with "
+        "generate_contents/convert_archive under a watchdog timer; a hand-written corpus first (chains from the seeded-change demos, nests, the "
+        "three counterexample archives of Props/C25.lean including the one on which convert_archive does not terminate); plus empty sets and "
         "zero-member streams. non-trivial = at least 5 entries including a hard-link group or a symlinked directory with entries below it")
+
+FINDING_ORDER = "C25-symlink-below-symlink-order"
+FINDING_DEPTH = "C25-resolution-longer-than-symlinks"
+FINDING_HANG = "C25-symlink-cycle-hang"
 
 
 def gen_tree(rng, base):
@@ -132,14 +159,14 @@ class SymlinkLoop(Exception):
     pass
 
 
-def merged_locations(objs):
+def merged_locations(objs, hops=None):
     """independent oracle of a live merge: every entry goes into the directory its recorded parent resolves to in the target file
     system with all symlinks of the set in place (symlinks followed, '..' lexical), under its own name; the places of the symlinks
-    themselves are computed as a fixpoint"""
+    themselves are computed as a fixpoint.  hops (optional dict) receives, per recorded location, how many symlinks were followed"""
 
-    def final(nodes, loc):
+    def final(nodes, loc, count=None):
         comps = loc.split("/")[1:]
-        todo, cur, budget = list(comps[:-1]), "/", 64 * (len(comps) + 4)
+        todo, cur, budget, n = list(comps[:-1]), "/", 64 * (len(comps) + 4), 0
         while todo:
             budget -= 1
             if budget < 0:
@@ -153,11 +180,14 @@ def merged_locations(objs):
                 nxt = posixpath.join(cur, c)
                 t = nodes.get(nxt)
                 if t is not None:
+                    n += 1
                     if t.startswith("/"):
                         cur = "/"
                     todo = t.split("/") + todo
                 else:
                     cur = nxt
+        if count is not None:
+            count[loc] = n
         return posixpath.join(cur, comps[-1])
     syms = sorted((o for o in objs if o[0] == "sym"), key=lambda o: o[1])
     nodes = {}
@@ -168,12 +198,137 @@ def merged_locations(objs):
         if new == nodes:
             break
         nodes = new
-    return {o[1]: final(nodes, o[1]) for o in objs}
+    return {o[1]: final(nodes, o[1], hops) for o in objs}
+
+
+class Hang(Exception):
+    pass
+
+
+def watchdog(seconds, fn):
+    """run fn(); Hang if it does not return in time (convert_archive loops forever on some symlink cycles)"""
+    def on_alarm(signum, frame):
+        raise Hang()
+    old = signal.signal(signal.SIGALRM, on_alarm)
+    signal.setitimer(signal.ITIMER_REAL, seconds)
+    try:
+        return fn()
+    finally:
+        signal.setitimer(signal.ITIMER_REAL, 0)
+        signal.signal(signal.SIGALRM, old)
+
+
+def below(objs, d):
+    return [o for o in objs if o.location.startswith(d + "/")]
+
+
+def alter_symlinks(rng, kind, objs, fs, mkfile):
+    """replace directories of the scanned set by chains / nests of symlinked directories; returns the new list (or None)"""
+    locs = {o.location for o in objs}
+    dirs = sorted(o.location for o in objs if o.is_dir and below(objs, o.location))
+    if not dirs:
+        return None
+
+    def sym(loc, tgt, like):
+        return fs.fsSymlink(loc, tgt, mode=0o777, uid=0, gid=0, mtime=like.mtime)
+
+    def entry(loc):
+        return [o for o in objs if o.location == loc][0]
+
+    if kind == "chain":
+        d = rng.choice(dirs)
+        par = posixpath.dirname(d)
+        pool = [n for n in ["stable", "v2", "aaa", "zz-old", "legacy", "0cur", "Real", "m", "x", "c", "data"] if posixpath.join(par, n) not in locs]
+        k = rng.choice([2, 2, 3])
+        names = rng.sample(pool, k)
+        hops = [d] + [posixpath.join(par, n) for n in names]
+        out = [o for o in objs if o.location != d]
+        for i in range(k):
+            style = rng.choice(["base", "abs", "dot", "dotdot"])
+            if style == "abs":
+                tgt = hops[i + 1]
+            elif style == "dot":
+                tgt = "./" + names[i]
+            elif style == "dotdot" and par != "/":
+                tgt = "../" + posixpath.basename(par) + "/" + names[i]
+            else:
+                tgt = names[i]
+            out.append(sym(hops[i], tgt, entry(d)))
+        if rng.random() < 0.5:
+            out.append(fs.fsDir(hops[-1], mode=0o755, uid=0, gid=0, mtime=entry(d).mtime))
+        return out
+    if kind in ("nest", "nestrec"):
+        pairs = [(d, s) for d in dirs for s in dirs if posixpath.dirname(s) == d and d != "/"]
+        if not pairs:
+            return None
+        d, sub = rng.choice(pairs)
+        real = d + "-real"
+        if real in locs:
+            return None
+        other = rng.choice([posixpath.basename(sub) + "-real", "/nest/target", "../" + posixpath.basename(sub) + ".d"])
+        out = [o for o in objs if o.location not in (d, sub)]
+        out.append(sym(d, rng.choice([posixpath.basename(real), real]), entry(d)))
+        # the inner symlinked directory: recorded where it really is, or (nestrec) below the outer symlink
+        inner = sub if kind == "nestrec" else posixpath.join(real, posixpath.basename(sub))
+        out.append(sym(inner, other, entry(sub)))
+        return out
+    if kind == "dotdot":
+        d = rng.choice(dirs)
+        depth = d.count("/") - 1
+        up = rng.randint(1, depth + 2)        # may climb beyond the root
+        out = [o for o in objs if o.location != d]
+        out.append(sym(d, "../" * up + "moved/" + posixpath.basename(d), entry(d)))
+        return out
+    if kind == "anclink":
+        d = rng.choice(dirs)
+        up = posixpath.join(d, "up")
+        if up in locs:
+            return None
+        base = posixpath.basename(d)
+        out = list(objs)
+        out.append(sym(up, "..", entry(d)))
+        out.append(mkfile(posixpath.join(up, base, "via-up"), b"via-up"))
+        if rng.random() < 0.4:
+            out.append(mkfile(posixpath.join(up, base, "up", base, "twice"), b"twice"))
+        return out
+    if kind == "cycle":
+        cands = [(a, b) for a in dirs for b in dirs if a < b and not b.startswith(a + "/")]
+        if not cands:
+            return None
+        a, b = rng.choice(cands)
+        # symlinks recorded below the two would make convert_archive loop forever (finding C25-symlink-cycle-hang, kept to the corpus)
+        out = [o for o in objs if o.location not in (a, b) and not (o.is_sym and (o.location.startswith(a + "/") or o.location.startswith(b + "/")))]
+        out.append(sym(a, b, entry(a)))
+        out.append(sym(b, rng.choice([a, posixpath.relpath(a, posixpath.dirname(b))]), entry(b)))
+        return out
+    return None
+
+
+# hand-written archives that run first: (name, entries); ("d", loc) directory, ("s", loc, target) symlink, ("f", loc, data) file
+CORPUS = [
+    ("chain-current-stable-v2", [("d", "/opt"), ("d", "/opt/app"), ("s", "/opt/app/current", "stable"), ("s", "/opt/app/stable", "v2"),
+                                 ("f", "/opt/app/current/tool", b"tool"), ("d", "/opt/app/current/share"), ("f", "/opt/app/current/share/doc.txt", b"doc"),
+                                 ("d", "/opt/app/v2")]),
+    ("chain-names-ascending", [("d", "/srv"), ("s", "/srv/m", "x"), ("s", "/srv/x", "c"), ("s", "/srv/c", "data"), ("f", "/srv/m/blob", b"blob")]),
+    ("chain-names-descending", [("s", "/zz-old", "legacy"), ("s", "/legacy", "/v1"), ("f", "/zz-old/a", b"a"), ("f", "/zz-old/d/b", b"b")]),
+    ("nest-real-place", [("s", "/usr/lib", "lib64"), ("s", "/usr/lib64/plug", "/opt/plug"), ("f", "/usr/lib/plug/p.so", b"p"), ("f", "/usr/lib/q.so", b"q"),
+                         ("d", "/usr")]),
+    ("dotdot-target", [("s", "/srv/app", "../opt/current"), ("s", "/opt/current", "stable"), ("s", "/opt/stable", "v2"), ("s", "/opt/v2/lib", "lib64"),
+                       ("f", "/srv/app/lib/y.so", b"y"), ("f", "/opt/current/bin/tool", b"t"), ("d", "/opt/current/bin")]),
+    ("dotdot-beyond-root", [("s", "/a/b", "../../../x/y"), ("f", "/a/b/f", b"f")]),
+    ("nested-recorded-below-symlink", [("s", "/etc", "sub/inner"), ("s", "/etc/doc", "/real"), ("f", "/etc/doc/x", b"x")]),
+    ("finding-order", [("s", "/p/a/b", "../z"), ("s", "/p/a/b/c", "tc"), ("s", "/q", "/p"), ("s", "/q/a", "/w")]),
+    ("finding-order-with-file", [("s", "/m", "/n/o"), ("s", "/m/k", "../t"), ("f", "/m/k/j", b"j"), ("s", "/v", "/n"), ("s", "/v/o", "/w")]),
+    ("finding-ancestor-link", [("s", "/l", "/d"), ("s", "/d/m", "/"), ("f", "/l/m/l/m/x", b"x")]),
+    ("cycle-two-dirs", [("s", "/a", "b"), ("s", "/b", "a"), ("f", "/a/f", b"f")]),
+    ("finding-hang", [("s", "/a", "/a/x"), ("s", "/a/x", "foo")]),
+]
 
 
 def run(ctx):
     from pkgcore.fs import contents, fs, livefs, tar
     from pkgcore.fs._tar import tarfile as ptar
+    from snakeoil.data_source import data_source
 
     rng = ctx.rng
     root = os.path.realpath(tempfile.mkdtemp(prefix="verif-c25-"))
@@ -181,6 +336,9 @@ def run(ctx):
 
     def data_id(b):
         return tokens.setdefault(bytes(b), len(tokens) + 1)
+
+    def mkfile(loc, data):
+        return fs.fsFile(loc, strict=False, data=data_source(data), chksums={"size": len(data)}, mode=0o644, uid=0, gid=0, mtime=5.0)
 
     def read_back(path, comp):
         if comp is None:
@@ -213,17 +371,59 @@ def run(ctx):
                             m.devmajor if dev else 0, m.devminor if dev else 0, data])
         return out
 
+    reqs, meta = [], []
+
+    def process(objs, alter, idx, comp, limit):
+        """write the set, read it back under a watchdog, queue the model requests"""
+        cs2 = contents.contentsSet(objs)
+        path = os.path.join(root, "a%d.tar" % idx)
+        inp = [canon(o, data_id) for o in cs2]
+        case = {"alter": alter, "compressor": comp, "set": inp}
+        mem = got = err = None
+        try:
+            write(cs2, path, comp)
+            mem = members_of(path, comp)
+            got = [canon(o, data_id) for o in watchdog(limit, lambda: read_back(path, comp))]
+        except Hang:
+            err = "hang"
+        except Exception as e:
+            mem, got, err = None, None, f"{type(e).__name__}: {e}"
+        reqs.append({"cmd": "c25.write", "set": inp})
+        reqs.append({"cmd": "c25.read", "members": mem if mem is not None else [], "c": 1000})
+        reqs.append({"cmd": "c25.merged", "set": inp})
+        reqs.append({"cmd": "c25.resolve", "set": inp})
+        meta.append((case, alter, inp, mem, got, err))
+        os.path.exists(path) and os.unlink(path)
+
     try:
-        reqs, meta = [], []
-        ncases = ctx.n(450, 9000)
+        # --- corpus first
+        for ci, (name, entries) in enumerate(CORPUS):
+            objs = []
+            for e in entries:
+                if e[0] == "d":
+                    objs.append(fs.fsDir(e[1], mode=0o755, uid=0, gid=0, mtime=3.0))
+                elif e[0] == "s":
+                    objs.append(fs.fsSymlink(e[1], e[2], mode=0o777, uid=0, gid=0, mtime=4.0))
+                else:
+                    objs.append(mkfile(e[1], e[2]))
+            process(objs, "corpus:" + name, 100000 + ci, None, 2.0 if name == "finding-hang" else 20.0)
+        ncases = ctx.n(440, 9000)
+        xz_left = ctx.n(4, 80)
         for idx in range(ncases):
             base = os.path.join(root, "t%d" % idx)
             gen_tree(rng, base)
             cs = livefs.scan(base, offset=base, chksum_types=("size",))
             objs = [o for o in cs if o.location != "/"]
-            alter = rng.choice(["none", "none", "symdir", "symdir", "dropdir", "dev", "chown", "nodev", "modegroup", "empty"])
+            alter = rng.choice(["none", "none", "symdir", "symdir", "dropdir", "dev", "chown", "nodev", "modegroup", "empty",
+                                "chain", "chain", "nest", "nestrec", "dotdot", "anclink", "cycle"])
             if alter == "empty":
                 objs = []
+            elif alter in ("chain", "nest", "nestrec", "dotdot", "anclink", "cycle"):
+                new = alter_symlinks(rng, alter, objs, fs, mkfile)
+                if new is None:
+                    alter = "none"
+                else:
+                    objs = new
             elif alter == "symdir":
                 dirs = sorted(o.location for o in objs if o.is_dir and any(x.location.startswith(o.location + "/") for x in objs))
                 for _ in range(rng.choice([1, 1, 2])):
@@ -259,24 +459,14 @@ def run(ctx):
                     victim = rng.choice(rng.choice(multi))
                     objs = [o.change_attributes(mode=0o700) if o is victim else o for o in objs]
             rng.shuffle(objs)
-            cs2 = contents.contentsSet(objs)
-            comp = rng.choice(["bzip2"] * 9 + [None] * 9 + ["xz"])      # xz at preset 9 costs 0.2 s per archive
-            path = os.path.join(root, "a%d.tar" % idx)
-            inp = [canon(o, data_id) for o in cs2]
-            case = {"alter": alter, "compressor": comp, "set": inp}
-            try:
-                write(cs2, path, comp)
-                mem = members_of(path, comp)
-                got = [canon(o, data_id) for o in read_back(path, comp)]
-                err = None
-            except Exception as e:
-                mem, got, err = None, None, f"{type(e).__name__}: {e}"
-            reqs.append({"cmd": "c25.write", "set": inp})
-            reqs.append({"cmd": "c25.read", "members": mem if mem is not None else [], "c": 1000})
-            reqs.append({"cmd": "c25.merged", "set": inp})
-            meta.append((case, alter, inp, mem, got, err))
+            comp = rng.choice(["bzip2"] * 9 + [None] * 9 + ["xz"])      # xz at preset 9 costs 0.2 s per archive (seconds on a loaded machine)
+            if comp == "xz":
+                if xz_left == 0:
+                    comp = "bzip2"
+                else:
+                    xz_left -= 1
+            process(objs, alter, idx, comp, 30.0)
             shutil.rmtree(base, ignore_errors=True)
-            os.path.exists(path) and os.unlink(path)
         # zero-member streams
         import bz2
         import lzma
@@ -295,7 +485,7 @@ def run(ctx):
 
         replies = ctx.model(reqs)
         for i, (case, alter, inp, mem, got, err) in enumerate(meta):
-            mwrite, mread, mmerged = replies[3 * i], replies[3 * i + 1], replies[3 * i + 2]
+            mwrite, mread, mmerged, mres = replies[4 * i], replies[4 * i + 1], replies[4 * i + 2], replies[4 * i + 3]
             files = [o for o in inp if o[0] == "file"]
             groups = {}
             for o in files:
@@ -303,17 +493,28 @@ def run(ctx):
                     groups.setdefault((o[6], o[7]) + tuple(o[2:6]), []).append(o[1])
             has_group = any(len(g) > 1 for g in groups.values())
             syms = {o[1] for o in inp if o[0] == "sym"}
-            below = [o for o in inp if any(o[1].startswith(s + "/") for s in syms)]
-            ctx.case(case, len(inp) >= 5 and (has_group or bool(below)), key=repr(case))
-            ctx.count("alter_" + alter)
+            below_sym = [o for o in inp if any(o[1].startswith(s + "/") for s in syms)]
+            sym_below_sym = any(o[0] == "sym" for o in below_sym)
+            ctx.case(case, len(inp) >= 5 and (has_group or bool(below_sym)), key=repr(case))
+            ctx.count("alter_" + alter.split(":")[0])
             ctx.count("compressor_%s" % case["compressor"])
             ctx.count("entries_%d" % min(len(inp), 12))
             if has_group:
                 ctx.count("with_hardlink_group")
-            if below:
+            if below_sym:
                 ctx.count("with_entries_below_symlink")
+            if sym_below_sym:
+                ctx.count("with_symlink_recorded_below_symlink")
             for o in inp:
                 ctx.count("kind_" + o[0])
+            if err == "hang":
+                # the code did not return: only the class the model also gives up on (symlink cycle in the first loop) is known
+                if mread == "raise":
+                    ctx.count("hang_on_symlink_cycle")
+                    ctx.violation(case, "convert_archive does not terminate (the loop relocating symlinks below symlinks runs forever)", finding=FINDING_HANG)
+                else:
+                    ctx.violation(case, "convert_archive did not return within the watchdog limit; the model terminates on this archive")
+                continue
             if err is not None:
                 ctx.violation(case, f"writing/reading the tarball raised {err}")
                 continue
@@ -324,16 +525,50 @@ def run(ctx):
                 return [(o[:5] + [""] if o[0] == "dir" and o[1] not in known else o) for o in objs]
             member_dirs = {posixpath.normpath("/" + m[1].strip("/")) for m in (mem or []) if m[0] == "dir"}
             if mread == "raise":
-                ctx.mismatch(case, "the model raises on the archive, the code read it")
+                ctx.mismatch(case, "the model raises (or runs out of fuel) on the archive, the code read it")
                 continue
             got_n = renumber(norm_dirs(got, member_dirs))
             model_n = renumber(norm_dirs(mread["ok"], member_dirs))
             if got_n != model_n:
                 ctx.mismatch(case, f"convert_archive result differs from the model: first difference "
                              f"{next(((a, b) for a, b in zip(got_n, model_n) if a != b), (len(got_n), len(model_n)))}")
+            # --- the relocation theorems, evaluated on the real result whenever their hypotheses hold for the set
+            gotd = {o[1]: o for o in got}
+            if mres["relocatable"]:
+                ctx.count("relocation_theorem_hypotheses_hold")
+                placed = {a: b for a, b in mres["placed"]}
+                if any(a != b for a, b in placed.items()):
+                    ctx.count("relocation_theorem_with_moved_entries")
+                problems = []
+                for o in inp:
+                    g = gotd.get(placed[o[1]])
+                    same = g is not None and ([g[0]] + g[2:6] + [g[8]] == [o[0]] + o[2:6] + [o[8]] if o[0] == "file" else [g[0]] + g[2:] == [o[0]] + o[2:])
+                    if not same:
+                        problems.append(f"convert_relocates: {o[1]!r} expected at {placed[o[1]]!r}, found {g}")
+                final_locs = set(placed.values())
+                want_dirs = set()       # the specification climbs all the way to the root from every entry
+                for loc in final_locs:
+                    a = posixpath.dirname(loc)
+                    while a not in ("/", ""):
+                        if a not in final_locs:
+                            want_dirs.add(a)
+                        a = posixpath.dirname(a)
+                extra = {g[1]: g for g in got if g[1] not in final_locs}
+                if set(extra) != want_dirs or any(g[0] != "dir" for g in extra.values()) or len(got) != len(final_locs) + len(want_dirs):
+                    problems.append(f"convert_adds_missing_dirs: created {sorted(extra)}, missing ancestors are {sorted(want_dirs)}")
+                rsyms = [g[1] for g in got if g[0] == "sym"]
+                if any(g[1].startswith(s + "/") for g in got for s in rsyms):
+                    problems.append("fixpoint: an entry of the result lies below a symlink of the result")
+                kinds = [0 if g[0] == "dir" else 2 if g[0] == "file" else 1 for g in got]
+                if kinds != sorted(kinds) or any(a[1] > b[1] for a, b in zip(got, got[1:]) if a[0] == b[0] == "dir") or \
+                        any(a[1] > b[1] for a, b in zip(got, got[1:]) if a[0] not in ("dir", "file") and b[0] not in ("dir", "file")):
+                    problems.append("convert_order: the result is not directories / others / files, each group sorted")
+                if problems:
+                    ctx.mismatch(case, "the real convert_archive result contradicts a proved theorem although it equals the model's: " + "; ".join(problems[:3]))
             # --- edge C: the property
+            hops = {}
             try:
-                merged = merged_locations(inp)
+                merged = merged_locations(inp, hops)
             except SymlinkLoop:
                 merged = None
             if (mmerged == "loop") != (merged is None) or (merged is not None and {m[0]: m[1] for m in mmerged} != merged):
@@ -345,24 +580,31 @@ def run(ctx):
             if len(set(finals)) != len(finals):
                 ctx.count("relocation_collision_skipped")
                 continue
-            gotd = {o[1]: o for o in got}
+            # known classes in which the code's relocation differs from a live merge (open findings)
+            known = None
+            if sym_below_sym:
+                known = FINDING_ORDER
+            elif hops and max(hops.values()) > len(syms):
+                known = FINDING_DEPTH
+            if mres["relocatable"] and {a: b for a, b in mres["placed"]} != merged:
+                ctx.count("resolveDir_differs_from_live_merge")
             for o in inp:
                 want_loc = merged[o[1]]
                 g = gotd.get(want_loc)
                 if g is None:
-                    ctx.violation(case, f"entry {o[1]!r} (expected at {want_loc!r}) is missing after the round trip")
+                    ctx.violation(case, f"entry {o[1]!r} (expected at {want_loc!r}) is missing after the round trip", finding=known)
                     break
                 if o[0] == "file":
                     if [g[0]] + g[2:6] + [g[8]] != [o[0]] + o[2:6] + [o[8]]:
-                        ctx.violation(case, f"file {o[1]!r} came back as {g} instead of {o}")
+                        ctx.violation(case, f"file {o[1]!r} came back as {g} instead of {o}", finding=known)
                         break
                 elif [g[0]] + g[2:] != [o[0]] + o[2:]:
-                    ctx.violation(case, f"entry {o[1]!r} came back as {g} instead of {o}")
+                    ctx.violation(case, f"entry {o[1]!r} came back as {g} instead of {o}", finding=known)
                     break
             else:
                 extra = [g for g in got if g[1] not in set(finals)]
                 if any(g[0] != "dir" for g in extra):
-                    ctx.violation(case, f"entries appeared that were not in the set: {[g for g in extra if g[0] != 'dir'][:3]}")
+                    ctx.violation(case, f"entries appeared that were not in the set: {[g for g in extra if g[0] != 'dir'][:3]}", finding=known)
                 # hard links: same inode afterwards iff same (dev, inode) and link-compatible before
                 bykey = {}
                 for o in files:
@@ -391,10 +633,21 @@ def run(ctx):
 LEVEL_TEXT = ("Kernel-checked Lean 4 theorems about a model of fs/tar.py over member lists: every entry converts to a TarInfo and back unchanged "
               "(member_roundtrip); the writer stores the first name of each (dev, inode) class with its data and every later link-compatible name as a "
               "hard link to it (write_links_to_first); the reader gives a hard link the inode and data of the member it names, also through chains "
-              "x→y→z (hardlink_chain); composed: every regular file comes back with its attributes and data, two files share an inode afterwards iff "
-              "they were hard links before (tar_roundtrip_files); an archive without members is the empty set (empty_archive_empty); without entries "
-              "below a symlink and with all parent directories present convert_archive only reorders (convert_plain). The tar byte format, compression "
-              "and the relocation below symlinked directories are covered by the differential run (members re-read with the stdlib tarfile; results "
-              "compared with the executable model and with an independent live-merge oracle).")
-LEVEL_NOTE = ("Partial: theorems do not cover convert_archive's relocation below symlinked directories nor add_missing_directories (sampled only); "
-              "trusted: Lean kernel, standard axioms, the tarfile contract, path primitives as re-expressed.")
+              "x→y→z (hardlink_chain); composed: every entry comes back with its attributes and data and hard links still share an inode "
+              "(tar_roundtrip_files), and two different names share an inode afterwards iff they shared (dev, inode) and were link-compatible before "
+              "(tar_roundtrip_inodes_iff); an archive without members is the empty set (empty_archive_empty). convert_archive: for every archive "
+              "without a symlink recorded below another symlink whose resolution chains are no longer than its number of symlinks (no cycle) and "
+              "collision free, every entry ends at resolveDir of its recorded path (a specification stated without the code's loops: chains "
+              "current→stable→v2, nests, relative '..' targets), nothing is lost or duplicated, untouched entries stay, and no entry of the result lies "
+              "below a symlink of the result (convert_relocates_partial); add_missing_directories creates exactly the missing proper ancestors, for any "
+              "set (missing_dirs_exact, convert_adds_missing_dirs_partial); the result is ordered directories / others / files-in-archive-order for "
+              "every archive (convert_order); convert_plain (nothing below a symlink ⇒ only reordering); normalised absolute locations satisfy the "
+              "path hypotheses PathOK and LocNorm of all these theorems (pathok_normalised). Outside the guard the full statement is false "
+              "of the code: convert_relocates_counterexample (order dependence with symlinks recorded below symlinks), convert_passes_counterexample "
+              "(len(syms)+1 passes too few with a symlink to an ancestor), convert_cycle_counterexample (non-termination) — three open findings. The "
+              "hypotheses are evaluated by the Lean driver on every sampled set (relocatable_of_check) and the theorems' conclusions are then checked "
+              "on the real convert_archive result; the tar byte format and compression are covered by the differential run (members re-read with the "
+              "stdlib tarfile; results compared with the executable model and with an independent live-merge oracle).")
+LEVEL_NOTE = ("Partial where named _partial: the relocation theorem needs 'no symlink entry below a symlink entry' (the code is order dependent "
+              "otherwise: open finding) and 'resolution no longer than the number of symlinks'; trusted: Lean kernel, standard axioms, the tarfile "
+              "contract, path primitives (normpath, dirname, the prefix test and offset rewrite of contentsSet) as re-expressed.")
